@@ -1,10 +1,11 @@
 /-
   C17 — each connect() starts from a clean slate.
 
-  In the model a connection is `Core.runAll cfg react env`: it starts from the initial `Sys`
-  built from its arguments alone, so the events of a connection cannot depend on what an earlier
-  connection on the same object did.  What makes that a faithful model of the *Python object*
-  is that every piece of per-connection state lives on objects that `connect()` replaces.  That
+  In the model a connection is `Core.runAll cfg react env`: it starts from the initial `Sys`.
+  The Python object is not new when `connect()` is called a second time: `used_object_equals_fresh`
+  runs the connection from the leftover state of ANY previous connection, re-initialising exactly the
+  fields the source re-creates (`Proofs/Fresh.lean`), and proves the result equal to `runAll`.
+  That every piece of per-connection state lives on objects that `connect()` replaces
   is a statement about the source text; it is established here over facts that the translator
   re-extracts from `/repo` on every run (`Generated/Facts.lean`): moving a field out of `State`,
   dropping the `reset()` call, turning an instance attribute into a class attribute, … changes
@@ -14,16 +15,38 @@
 import Lomond.Model.Core
 import Lomond.Generated.Facts
 import Lomond.Proofs.Reconnect
+import Lomond.Proofs.Fresh
 
 namespace Lomond.C17
 open Lomond Lomond.Core
 
-/-- The events (and everything else observable) of a connection are a function of that
-    connection's own configuration, application and environment: `connect` builds the initial
-    state from them and from nothing else.  `prev` is the final state of any earlier connection
-    on the object — it is simply not an input. -/
-theorem fresh_equiv (prev : Option Sys) (cfg : Cfg) (react : React) (env : List EnvStep) :
-    (fun (_ : Option Sys) => runAll cfg react env) prev = runAll cfg react env := rfl
+/-- **A connection on a used object is the connection a fresh object would make.**  `prev` is ANY state the object
+    can be in when `connect()` is called (whatever the previous connection did and however it ended: mid-header,
+    mid-frame, mid-fragmented-message, mid-compression-context, closing, rejected, failed, abandoned).
+    `Fresh.reconnect prev …` keeps every field of `prev` except those the source provably re-creates with the
+    model's initial value (generated facts: `connect()` starts with `reset()`, `reset()` assigns a new `State`,
+    `State.__init__` / `WebsocketStream.__init__` / `FrameParser.__init__` / `Parser.__init__` /
+    `WebsocketSession.__init__` and their initialiser expressions); running the connection from there gives
+    exactly `runAll cfg react env`. -/
+theorem used_object_equals_fresh (prev : Sys) (cfg : Cfg) (react : React) (env : List EnvStep) :
+    Fresh.runAllFrom (Fresh.reconnect prev cfg react env) = runAll cfg react env := by
+  rw [Fresh.reconnect_eq_init, Fresh.runAll_eq_from]
+
+/-- the statement is not idle: for a concrete dirty object (closing, a close timer armed, mid-text-frame with the UTF-8
+    validator inside a character, compression negotiated, 3 bytes buffered) `reconnect` really has something to undo,
+    and the field-wise definition really keeps a stale value when the owner is not re-created -/
+example :
+    let dirty : Sys := { cfg := {}, react := fun _ => [], env := [], closing := true, sentCloseTime := some 7, ready := true,
+                         sockOpen := true, parsedResponse := true, decompress := true, inflHist := [1, 2, 3],
+                         p := { cont := .payload { opcode := 1, fin := 0 }, remPred := 4, utf8 := true, buf := [0xe2, 0x82, 0x61], dfa := 3, isText := true } }
+    Fresh.reconnect dirty {} (fun _ => []) [] ≠ dirty ∧
+    Fresh.boolAttr false "State" "closing" true = true ∧
+    Fresh.boolAttr true "State" "no_such_attribute" true = true := by
+  refine ⟨?_, by decide, by decide⟩
+  rw [Fresh.reconnect_eq_init]
+  intro h
+  have := congrArg Sys.closing h
+  simp at this
 
 /-- a fresh connection starts with every per-connection field at its initial value -/
 theorem initial_state (cfg : Cfg) (react : React) (env : List EnvStep) :
